@@ -30,12 +30,48 @@ type retained struct {
 	snapshot string
 }
 
+// step kinds of a planned history
+const (
+	stEnvFlush = iota
+	stDerived
+	stQuery
+	stFlood
+)
+
+type histStep struct {
+	kind int
+	op   int // stQuery: index into table
+	// stDerived
+	ringPick, d0 int
+	// stFlood
+	floodN    int
+	floodBase string
+}
+
+// floodOp is the i-th request of a flood under base.
+func floodOp(i int, base string) workload.Op {
+	switch i % 4 {
+	case 2:
+		return workload.Op{Kind: workload.OpWeb, URL: fmt.Sprintf("https://f%d.%s/ads.js?i=%d", i, base, i), Src: fmt.Sprintf("https://s%d.%s/page", i, base), Type: rules.TypeScript}
+	case 3:
+		return workload.Op{Kind: workload.OpCosmetic, Host: fmt.Sprintf("f%d.%s", i, base), CosOpt: rules.CosmeticOptionAll}
+	default:
+		return workload.Op{Kind: workload.OpDNS, Host: fmt.Sprintf("f%d.%s", i, base), DNSType: 1}
+	}
+}
+
 // RunC13 is one simulated query history for C13.  The simulator owns the
 // history and the hidden state between queries: the request pool (recycled
 // object vs fresh object: GOMAXPROCS(1) makes recycling deterministic, a
 // Chooser-placed double GC empties the pool), the rule cache (cold, pre-warmed
 // or grown by the history), the lazy-compile state of every rule (a function
 // of the history), the backing kind and the read-buffer knob.
+//
+// The history is PLANNED first (all draws), then every reference answer is
+// computed - each on a brand-new storage and engine, and in the REVERSE order
+// of first appearance, so that state kept outside the engines (package-level
+// caches) cannot pollute reference and history in the same order and cancel
+// out - and only then is the history executed on the long-lived engines.
 func RunC13(ch *core.Chooser, env *Env) *Outcome {
 	out := newOutcome()
 	hosts := workload.PickHosts(ch)
@@ -45,192 +81,42 @@ func RunC13(ch *core.Chooser, env *Env) *Outcome {
 	}
 	lists := drawLists(ch, hosts, workload.AllKinds, 3, 1, maxLines, 0)
 
-	sub, err := disk.Build(lists, env.Dir, false)
-	if err != nil {
-		out.Invalid, out.InvalidReason = true, "build: "+err.Error()
-		return out
-	}
-	defer sub.Cleanup()
-
-	// GC only where the Chooser says so: pool recycling becomes a pure
-	// function of the history
-	old := debug.SetGCPercent(-1)
-	defer func() {
-		debug.SetGCPercent(old)
-		runtime.GC()
-	}()
-
-	filterlist.VerifSetHooks(filterlist.VerifHooks{Yield: core.MainHooks()})
-	defer filterlist.VerifSetHooks(filterlist.VerifHooks{})
-	var e *workload.Engines
-	if perr := safely(func() { e = workload.NewEngines(sub.Storage) }); perr != "" {
-		out.Invalid, out.InvalidReason = true, perr
-		return out
-	}
-
-	fresh := map[string]*freshAnswer{}
-	freshOf := func(o *workload.Op) (*freshAnswer, string) {
-		k := o.Key()
-		if f, ok := fresh[k]; ok {
-			return f, ""
-		}
-		f := &freshAnswer{}
-		c, err := sub.Clone(false)
-		if err != nil {
-			return nil, "clone: " + err.Error()
-		}
-		defer c.Cleanup()
-		perr := safely(func() {
-			fe := &workload.Engines{Storage: c.Storage}
-			switch o.Kind {
-			case workload.OpDNS:
-				fe.DNS = urlfilter.NewDNSEngine(c.Storage)
-			case workload.OpWeb, workload.OpCosmetic:
-				fe.Eng = urlfilter.NewEngine(c.Storage)
-			default:
-				fe.Net = urlfilter.NewNetworkEngine(c.Storage)
-			}
-			f.canon = workload.Exec(fe, o).Canon()
-			// each derived evaluation is taken on a result object that no
-			// other derived evaluation has touched, so that the reference
-			// cannot inherit (or crash on) a mutation made by a previous one
-			for d := 0; d < workload.NumDerived; d++ {
-				if workload.DerivedApplies(o.Kind, d) {
-					f.derived[d] = workload.Exec(fe, o).Derived(d)
-				}
-			}
-		})
-		if perr != "" {
-			return nil, perr
-		}
-		fresh[k] = f
-		return f, ""
-	}
-
+	// ---- plan
 	opKinds := []int{workload.OpDNS, workload.OpDNS, workload.OpDNS, workload.OpDNS, workload.OpWeb, workload.OpWeb, workload.OpWeb, workload.OpMatchAll, workload.OpMatchAll, workload.OpMatch, workload.OpCosmetic, workload.OpCosmetic}
-	var table []workload.Op // every request of the history
-	var hist []string       // rendered history (samples / replay)
-	var ring []*retained
+	var table []workload.Op
+	var steps []histStep
+	var warmOps []workload.Op
 	lastDNS, lastWeb, lastCos := -1, -1, -1
-	cachePrev := map[int64]string{}
-	queries, repeats, oneField, derivedOnOld, flushes, nonEmpty := 0, 0, 0, 0, 0, 0
-	flushedSinceDNS := false
+	queriesPlanned, repeats, oneField := 0, 0, 0
 	pct := []int{85, 95, 98, 99}[ch.Intn("hist.pct", 4)]
 	warm := ch.Intn("hist.warm", 4) == 3
 	floodRun := ch.Intn("hist.flood", 8) == 7
 	flooded := false
-
-	fail := func(class, detail string) *Outcome {
-		out.Violation = &Violation{Class: class, Detail: detail}
-		if env.KeepTrace {
-			out.Sample = map[string]any{"lists": renderPlans(lists), "history": hist}
-		}
-		return out
-	}
-
 	if warm {
-		// pre-warm the cache with a Chooser subset of requests
 		for i := 0; i < 6; i++ {
-			o := workload.GenOp(ch, hosts, opKinds)
-			if perr := safely(func() { workload.Exec(e, &o) }); perr != "" {
-				out.Invalid, out.InvalidReason = true, perr
-				return out
-			}
+			warmOps = append(warmOps, workload.GenOp(ch, hosts, opKinds))
 		}
 	}
-
-	checkRetained := func(after string) *Outcome {
-		for _, r := range ring {
-			if now := r.res.Canon(); now != r.snapshot {
-				return fail("old-result-changed:"+opClass(&table[r.op]), fmt.Sprintf("after %s, the result previously returned for %s changed\n was: %s\n now: %s", after, table[r.op].Key(), r.snapshot, now))
-			}
-		}
-		return nil
-	}
-
-	for step := 0; step < maxOps; step++ {
-		if step == 0 {
+	for n := 0; n < maxOps; n++ {
+		if n == 0 {
 			ch.Begin("step")
 		} else if !ch.More("step", pct) {
 			break
 		}
+		ringLen := queriesPlanned
+		if ringLen > 16 {
+			ringLen = 16
+		}
 		act := ch.Intn("hist.act", 20)
 		switch {
 		case act == 1 && !flooded && floodRun:
-			// a flood of distinct requests: whatever the engine memoises
-			// per request (bounded caches, counters) is pushed past its
-			// limits; one in 25 of them is compared with a fresh engine
 			flooded = true
-			n := 150 + ch.Intn("flood.n", 1400)
-			base := hosts[ch.Intn("q.host", len(hosts))]
-			bad := ""
-			for i := 0; i < n && bad == ""; i++ {
-				var o workload.Op
-				if i%3 == 2 {
-					o = workload.Op{Kind: workload.OpWeb, URL: fmt.Sprintf("https://f%d.%s/ads.js?i=%d", i, base, i), Src: fmt.Sprintf("https://s%d.%s/page", i, base), Type: rules.TypeScript}
-				} else {
-					o = workload.Op{Kind: workload.OpDNS, Host: fmt.Sprintf("f%d.%s", i, base), DNSType: 1}
-				}
-				var c string
-				if perr := safely(func() { c = workload.Exec(e, &o).Canon() }); perr != "" {
-					return fail("panic:"+opClass(&o), fmt.Sprintf("flood query %s panicked\n%s", o.Key(), perr))
-				}
-				if i%25 == 24 {
-					f, perr := freshOf(&o)
-					if perr != "" {
-						out.Invalid, out.InvalidReason = true, perr
-						ch.End()
-						return out
-					}
-					if c != f.canon {
-						bad = fmt.Sprintf("flood request #%d %s\n after history: %s\n fresh engine:  %s", i, o.Key(), c, f.canon)
-					}
-				}
-			}
-			hist = append(hist, fmt.Sprintf("flood: %d distinct requests under %s", n, base))
-			out.Probes["flood_requests"] += n
-			if bad != "" {
-				return fail("answer-differs:flood", bad)
-			}
-			if o := checkRetained("a flood of distinct requests"); o != nil {
-				return o
-			}
-		case act == 0: // environment: flush the request pool
-			runtime.GC()
-			runtime.GC()
-			flushes++
-			flushedSinceDNS = true
-			hist = append(hist, "env: pool flush (2x GC)")
-		case act <= 6 && len(ring) > 0: // derived evaluations on an old result
-			r := ring[ch.Intn("hist.old", len(ring))]
-			// every derived evaluation that applies to this kind of
-			// result, starting at a Chooser-chosen one
-			d0 := ch.Intn("hist.derived", workload.NumDerived)
-			f, perr := freshOf(&table[r.op])
-			if perr != "" {
-				out.Invalid, out.InvalidReason = true, perr
-				ch.End()
-				return out
-			}
-			for k := 0; k < workload.NumDerived; k++ {
-				d := (d0 + k) % workload.NumDerived
-				var v string
-				if perr := safely(func() { v = r.res.Derived(d) }); perr != "" {
-					return fail("panic:derived", perr)
-				}
-				if v == "" {
-					continue
-				}
-				derivedOnOld++
-				hist = append(hist, fmt.Sprintf("derived %d on result of %s -> %s", d, table[r.op].Key(), trunc(v, 200)))
-				if v != f.derived[d] {
-					return fail("derived-differs:"+opClass(&table[r.op]), fmt.Sprintf("derived evaluation %d on an old result of %s\n history: %s\n fresh:   %s", d, table[r.op].Key(), v, f.derived[d]))
-				}
-				if o := checkRetained(fmt.Sprintf("derived evaluation %d on result of %s", d, table[r.op].Key())); o != nil {
-					return o
-				}
-			}
-		default: // a query
+			steps = append(steps, histStep{kind: stFlood, floodN: 150 + ch.Intn("flood.n", 1400), floodBase: hosts[ch.Intn("q.host", len(hosts))]})
+		case act == 0:
+			steps = append(steps, histStep{kind: stEnvFlush})
+		case act <= 6 && ringLen > 0:
+			steps = append(steps, histStep{kind: stDerived, ringPick: ch.Intn("hist.old", ringLen), d0: ch.Intn("hist.derived", workload.NumDerived)})
+		default:
 			var o workload.Op
 			switch q := ch.Intn("hist.q", 12); {
 			case q <= 2 && lastDNS >= 0:
@@ -256,18 +142,199 @@ func RunC13(ch *core.Chooser, env *Env) *Outcome {
 			switch {
 			case o.Kind == workload.OpDNS:
 				lastDNS = oi
-				flushedSinceDNS = false
 			case o.Kind == workload.OpCosmetic:
 				lastCos = oi
 			case !o.HostnameReq:
 				lastWeb = oi
 			}
-			f, perr := freshOf(&o)
-			if perr != "" {
-				out.Invalid, out.InvalidReason = true, perr
-				ch.End()
-				return out
+			queriesPlanned++
+			steps = append(steps, histStep{kind: stQuery, op: oi})
+		}
+		ch.End()
+	}
+
+	sub, err := disk.Build(lists, env.Dir, false)
+	if err != nil {
+		out.Invalid, out.InvalidReason = true, "build: "+err.Error()
+		return out
+	}
+	defer sub.Cleanup()
+
+	// GC only where the Chooser says so: pool recycling becomes a pure
+	// function of the history
+	old := debug.SetGCPercent(-1)
+	defer func() {
+		debug.SetGCPercent(old)
+		runtime.GC()
+	}()
+	filterlist.VerifSetHooks(filterlist.VerifHooks{Yield: core.MainHooks()})
+	defer filterlist.VerifSetHooks(filterlist.VerifHooks{})
+
+	// ---- reference, in reverse order of first appearance
+	fresh := map[string]*freshAnswer{}
+	computeFresh := func(o *workload.Op) string {
+		k := o.Key()
+		if _, ok := fresh[k]; ok {
+			return ""
+		}
+		f := &freshAnswer{}
+		c, err := sub.Clone(false)
+		if err != nil {
+			return "clone: " + err.Error()
+		}
+		defer c.Cleanup()
+		perr := safely(func() {
+			fe := &workload.Engines{Storage: c.Storage}
+			switch o.Kind {
+			case workload.OpDNS:
+				fe.DNS = urlfilter.NewDNSEngine(c.Storage)
+			case workload.OpWeb, workload.OpCosmetic:
+				fe.Eng = urlfilter.NewEngine(c.Storage)
+			default:
+				fe.Net = urlfilter.NewNetworkEngine(c.Storage)
 			}
+			f.canon = workload.Exec(fe, o).Canon()
+			// each derived evaluation is taken on a result object that no
+			// other derived evaluation has touched, so that the reference
+			// cannot inherit (or crash on) a mutation made by a previous one
+			for d := 0; d < workload.NumDerived; d++ {
+				if workload.DerivedApplies(o.Kind, d) {
+					f.derived[d] = workload.Exec(fe, o).Derived(d)
+				}
+			}
+		})
+		if perr != "" {
+			return perr
+		}
+		fresh[k] = f
+		return ""
+	}
+	var needed []workload.Op
+	needed = append(needed, table...)
+	for _, st := range steps {
+		if st.kind == stFlood {
+			for i := 24; i < st.floodN; i += 25 {
+				needed = append(needed, floodOp(i, st.floodBase))
+			}
+			// a few early flood requests are asked again at the end of the
+			// flood (a bounded memo may have evicted or mixed them up)
+			for i := 0; i < 12 && i < st.floodN; i++ {
+				needed = append(needed, floodOp(i, st.floodBase))
+			}
+		}
+	}
+	for i := len(needed) - 1; i >= 0; i-- {
+		if perr := computeFresh(&needed[i]); perr != "" {
+			out.Invalid, out.InvalidReason = true, perr
+			return out
+		}
+	}
+
+	// ---- execution on the long-lived engines
+	var e *workload.Engines
+	if perr := safely(func() {
+		e = workload.NewEngines(sub.Storage)
+		for i := range warmOps {
+			workload.Exec(e, &warmOps[i])
+		}
+	}); perr != "" {
+		out.Invalid, out.InvalidReason = true, perr
+		return out
+	}
+
+	var hist []string // rendered history (samples / replay)
+	var ring []*retained
+	cachePrev := map[int64]string{}
+	queries, derivedOnOld, flushes, nonEmpty := 0, 0, 0, 0
+	flushedSinceDNS := false
+
+	fail := func(class, detail string) *Outcome {
+		out.Violation = &Violation{Class: class, Detail: detail}
+		if env.KeepTrace {
+			out.Sample = map[string]any{"lists": renderPlans(lists), "history": hist}
+		}
+		return out
+	}
+	checkRetained := func(after string) *Outcome {
+		for _, r := range ring {
+			if now := r.res.Canon(); now != r.snapshot {
+				return fail("old-result-changed:"+opClass(&table[r.op]), fmt.Sprintf("after %s, the result previously returned for %s changed\n was: %s\n now: %s", after, table[r.op].Key(), r.snapshot, now))
+			}
+		}
+		return nil
+	}
+
+	for si, st := range steps {
+		switch st.kind {
+		case stFlood:
+			// a flood of distinct requests: whatever the engine memoises per
+			// request (bounded caches, counters) is pushed past its limits
+			bad := ""
+			ask := func(i int, compare bool) {
+				o := floodOp(i, st.floodBase)
+				var c string
+				if perr := safely(func() { c = workload.Exec(e, &o).Canon() }); perr != "" {
+					bad = fmt.Sprintf("flood query %s panicked\n%s", o.Key(), perr)
+					return
+				}
+				if compare {
+					if f := fresh[o.Key()]; f != nil && c != f.canon {
+						bad = fmt.Sprintf("flood request #%d %s\n after history: %s\n fresh engine:  %s", i, o.Key(), c, f.canon)
+					}
+				}
+			}
+			for i := 0; i < st.floodN && bad == ""; i++ {
+				ask(i, i%25 == 24 || i < 12)
+			}
+			for i := 0; i < 12 && i < st.floodN && bad == ""; i++ {
+				ask(i, true)
+			}
+			hist = append(hist, fmt.Sprintf("flood: %d distinct requests under %s, the first 12 asked again", st.floodN, st.floodBase))
+			out.Probes["flood_requests"] += st.floodN
+			if bad != "" {
+				return fail("answer-differs:flood", bad)
+			}
+			if o := checkRetained("a flood of distinct requests"); o != nil {
+				return o
+			}
+		case stEnvFlush:
+			runtime.GC()
+			runtime.GC()
+			flushes++
+			flushedSinceDNS = true
+			hist = append(hist, "env: pool flush (2x GC)")
+		case stDerived:
+			if st.ringPick >= len(ring) {
+				break
+			}
+			r := ring[st.ringPick]
+			f := fresh[table[r.op].Key()]
+			// every derived evaluation that applies to this kind of result,
+			// starting at a Chooser-chosen one
+			for k := 0; k < workload.NumDerived; k++ {
+				d := (st.d0 + k) % workload.NumDerived
+				var v string
+				if perr := safely(func() { v = r.res.Derived(d) }); perr != "" {
+					return fail("panic:derived", perr)
+				}
+				if v == "" {
+					continue
+				}
+				derivedOnOld++
+				hist = append(hist, fmt.Sprintf("derived %d on result of %s -> %s", d, table[r.op].Key(), trunc(v, 200)))
+				if v != f.derived[d] {
+					return fail("derived-differs:"+opClass(&table[r.op]), fmt.Sprintf("derived evaluation %d on an old result of %s\n history: %s\n fresh:   %s", d, table[r.op].Key(), v, f.derived[d]))
+				}
+				if o := checkRetained(fmt.Sprintf("derived evaluation %d on result of %s", d, table[r.op].Key())); o != nil {
+					return o
+				}
+			}
+		case stQuery:
+			o := table[st.op]
+			if o.Kind == workload.OpDNS {
+				flushedSinceDNS = false
+			}
+			f := fresh[o.Key()]
 			var res *workload.Result
 			var reqBefore, reqAfter string
 			if perr := safely(func() {
@@ -303,7 +370,7 @@ func RunC13(ch *core.Chooser, env *Env) *Outcome {
 			}
 			hist = append(hist, fmt.Sprintf("query %s -> %s", o.Key(), trunc(c, 300)))
 			if c != f.canon {
-				return fail("answer-differs:"+opClass(&o), fmt.Sprintf("step %d request %s\n after history: %s\n fresh engine:  %s", step, o.Key(), c, f.canon))
+				return fail("answer-differs:"+opClass(&o), fmt.Sprintf("step %d request %s\n after history: %s\n fresh engine:  %s", si, o.Key(), c, f.canon))
 			}
 			if reqBefore != reqAfter {
 				return fail("request-mutated:"+opClass(&o), fmt.Sprintf("the caller's request object was changed by %s\n before: %s\n after:  %s", o.Key(), reqBefore, reqAfter))
@@ -311,7 +378,7 @@ func RunC13(ch *core.Chooser, env *Env) *Outcome {
 			if o := checkRetained("query " + o.Key()); o != nil {
 				return o
 			}
-			ring = append(ring, &retained{op: oi, res: res, snapshot: c})
+			ring = append(ring, &retained{op: st.op, res: res, snapshot: c})
 			if len(ring) > 16 {
 				ring = ring[1:]
 			}
@@ -339,7 +406,6 @@ func RunC13(ch *core.Chooser, env *Env) *Outcome {
 			fl = 1
 		}
 		out.States = append(out.States, uint64(len(cachePrev))<<16^uint64(len(ring))<<1^fl^uint64(queries)<<40)
-		ch.End()
 	}
 
 	out.Steps = len(hist)
